@@ -103,5 +103,19 @@ def call(f, *a, **k):
         return ('exc', type(e).__name__, str(e)[:200], innermost_athlib_frame(e.__traceback__))
 
 
+class OddStr(str):
+    """A str subclass whose str() / repr() / format() are NOT its text (what a `class Ev(str, Enum)` member is): code that takes
+    a string must use the string, not its str()."""
+
+    def __str__(self):
+        return 'OddStr.<%d chars>' % len(self)
+
+    def __repr__(self):
+        return '<OddStr>'
+
+    def __format__(self, spec):
+        return 'OddStr.<%d chars>' % len(self)
+
+
 def is_exc(r, *names):
     return r[0] == 'exc' and (not names or r[1] in names)
